@@ -344,6 +344,19 @@ def run(ctx, rep) -> None:
                       rcls_file(prog), c.lineno, disc=f"no-stage-start-before-workflow:{c.func.id}")
     rep.floor("message constructions in _recover_workflow", n9, 4)
 
+    # ---- R10: the sweep starts a stage's next task only when none of its tasks is running ------------------------------------
+    rep.rule("C10.R10", "in _recover_workflow StartTask is built only where the stage has no RUNNING task (a running task - with or without a queued message - means the stage is between two tasks of its own: its CompleteTask starts the next one)")
+    from ..dom import conditions_at as _ca10
+    rw10 = prog.func(REC, "WorkflowRecovery._recover_workflow").node
+    st_sites = [c for c in ast.walk(rw10) if isinstance(c, ast.Call) and isinstance(c.func, ast.Name) and c.func.id == "StartTask"]
+    rep.floor("StartTask constructions in _recover_workflow", len(st_sites), 1)
+    for c in st_sites:
+        cs = _ca10(rw10, c)
+        ok = ("running_tasks", False) in cs
+        rep.check(ok, "C10.R10", "StartTask is re-queued only for a stage without a RUNNING task", "dominated by `not running_tasks`" if ok else
+                  f"conditions {sorted(t for t, tr in cs if 'task' in t)[:4]} do not exclude a RUNNING task: while a polling / retried task waits for its delayed RunTask the sweep starts its successor - it runs out of order, "
+                  "its CompleteStage is dropped as stale and the stage stays RUNNING when the predecessor finally completes", rcls_file(prog), c.lineno, disc="starttask-no-running-task")
+
     # ---- R6 -------------------------------------------------------------------------------------
     from ..statuspred import status_set
     # reference: the condition under which the healthy run pushes StartTask(first task) for a stage with before-stages
